@@ -88,6 +88,12 @@ def env_of(inp):
     return env
 
 
+def _unmark(k):
+    from jsonargparse._namespace import del_clash_mark
+
+    return del_clash_mark(k)
+
+
 def alpha(cfg, nodes):
     by_path = {tuple(n["path"]): n for n in nodes}
     levels = []
@@ -100,7 +106,7 @@ def alpha(cfg, nodes):
         x = cur.get("x")
         chosen = cur.get("subcommand") if n["ch"] else None
         sections = [name for name in n["ch"] if isinstance(cur.get(name), Namespace)]
-        extra = sorted(k for k in vars(cur) if k not in ("x", "cfg", "subcommand", "__default_config__") and k not in n["ch"])
+        extra = sorted(k for k in (_unmark(k) for k in vars(cur)) if k not in ("x", "cfg", "subcommand", "__default_config__") and k not in n["ch"])
         levels.append({"x": x if type(x) is int else -1, "chosen": chosen if isinstance(chosen, str) else "-", "sections": sorted(sections) + ["?" + e for e in extra]})
         if not n["ch"] or not isinstance(chosen, str) or chosen not in n["ch"] or not isinstance(cur.get(chosen), Namespace):
             break
@@ -109,7 +115,36 @@ def alpha(cfg, nodes):
     return levels
 
 
+# sub-command names that coincide with attributes of Namespace: the selection code must treat them like any other name
+CLASH = {"a": "get", "b": "items", "c": "keys", "d": "update", "e": "pop", "f": "values", "g": "clone", "h": "as_dict"}
+CLASH_INV = {v: k for k, v in CLASH.items()}
+
+
+def _ren(x, table):
+    if isinstance(x, str):
+        return table.get(x, x)
+    if isinstance(x, list):
+        return [_ren(y, table) for y in x]
+    if isinstance(x, dict):
+        return {k: _ren(v, table) for k, v in x.items()}
+    return x
+
+
 def run_case(case):
+    """every other block of six variants runs the case with the sub-commands RENAMED to clash names (get, items, ...)"""
+    if (case["variant"] // 6) % 2 == 1:
+        ren = dict(case, nodes=[dict(n, path=_ren(n["path"], CLASH), ch=_ren(n["ch"], CLASH)) for n in case["nodes"]],
+                   input=dict(case["input"], argv=_ren(case["input"]["argv"], CLASH), csel=_ren(case["input"]["csel"], CLASH), csec=_ren(case["input"]["csec"], CLASH),
+                              esel=_ren(case["input"]["esel"], CLASH), eopt=_ren(case["input"]["eopt"], CLASH)))
+        r = _run_case(ren)
+        r["levels"] = [dict(l, chosen=CLASH_INV.get(l["chosen"], l["chosen"]), sections=sorted(("?" + CLASH_INV.get(x[1:], x[1:])) if x.startswith("?") else CLASH_INV.get(x, x) for x in l["sections"]))
+                       for l in r["levels"]]
+        r["renamed"] = True
+        return r
+    return _run_case(case)
+
+
+def _run_case(case):
     from jsonargparse import ArgumentError
 
     warnings.simplefilter("ignore")
